@@ -22,7 +22,7 @@ func init() {
 	stats.Rule("C06", "rapid cases: a source sketch built by a short generated history (weighted adds with dyadic weights, bursts, merges, reweights; any mapping, any of the five store kinds per side, plain or exact variant), encoded with omitIndexMapping in {true,false} after an arbitrary buffer prefix (with and without spare capacity); decoded into a target of any of the five store kinds (collapsing with its own N); 0..3 further sketches for concatenation; a non-empty receiver of any kind. Oracle: (1) decode(enc(s)) has an Equal mapping that re-encodes to the same bytes, bins == fold_target(observed bins of s), zero weight equal, whole observation identical to the source's for non-collapsing targets; (2) r.DecodeAndMergeWith(enc(s)) is observationally identical to r'.MergeWith(s) on a copy; (3) decoding a concatenation equals merging; (4) Encode leaves the prefix and the backing array before it untouched; (5) Encode does not change the source's observation. A second generator gives each index one arbitrary non-negative float64 weight (subnormal..1e300) in a dense or sparse source: each decoded weight must have exactly the bits of (w+1)-1 (absent when that is 0). Non-trivial: a source with >= 2 bins on at least one side; distinct by hash of the printed case; labels record which wire layouts occurred (read from the stream by the independent parser).")
 }
 
-var codecSourceKinds = []string{"add", "add", "add", "add", "burst", "merge", "reweight", "clear"}
+var codecSourceKinds = []string{"add", "add", "add", "add", "add", "add", "add", "burst", "burst", "spread", "merge", "merge", "reweight", "reweight", "clear", "clear"}
 
 // buildSource builds a sketch by a short history.
 func buildSource(t *rapid.T, cl *caseLog, c skCfg, d valDom, bud *model.Budget, maxOps int, tag string) *skUT {
